@@ -1,7 +1,7 @@
 """C06-I1: the info tools report the stored summary (label -> expression table, identical derivations in both tools)."""
 from __future__ import annotations
 import re
-from ..astq import Node, up, strip, strip_cast, walk_no_nested_fn
+from ..astq import Node, up, strip, strip_cast, walk_no_nested_fn, upn
 
 WI = "bigtools/src/utils/cli/bigwiginfo.rs"
 BI = "bigtools/src/utils/cli/bigbedinfo.rs"
@@ -14,7 +14,7 @@ def _prints(fn):
             fmt = n["args"][0]["v"]
             m = re.match(r"^([\w ]+): \{", fmt)
             if m:
-                out[m.group(1)] = (fmt, [re.sub(r"[\s()]", "", up(strip(a))) for a in n["args"][1:]], n)
+                out[m.group(1)] = (fmt, [re.sub(r"[\s()]", "", upn(fn, a)) for a in n["args"][1:]], n)     # normal form: temporaries inlined
     return out
 
 
@@ -25,9 +25,9 @@ def ob_info_tools(ctx, res):
     want = {
         "basesCovered": ["num_with_commas%s.bases_covered" % S],
         "mean": ["%s.sum/%s.bases_coveredasf64" % (S, S)],
-        "min": ["%s.min_val" % S], "max": ["%s.max_val" % S], "std": ["std"],
+        "min": ["%s.min_val" % S], "max": ["%s.max_val" % S],
     }
-    alias = {"mean": "meanDepth", "min": "minDepth", "max": "maxDepth", "std": "std of depth", "basesCovered": "basesCovered"}
+    alias = {"mean": "meanDepth", "min": "minDepth", "max": "maxDepth", "basesCovered": "basesCovered"}
     ok = True
     for label, args in want.items():
         for tool, pr, lab in (("bigwiginfo", a, label), ("bigbedinfo", b, alias[label])):
@@ -41,16 +41,23 @@ def ob_info_tools(ctx, res):
     texts = []
     for file in (WI, BI):
         fn = ctx.ast.fn(file, "print_info")
-        var = [n for n in walk_no_nested_fn(fn.body) if n.k == "let" and up(n["pat"]) == "var"]
-        std = [n for n in walk_no_nested_fn(fn.body) if n.k == "let" and up(n["pat"]) == "std"]
         gs = [n for n in walk_no_nested_fn(fn.body) if n.k == "let" and up(n["pat"]) == "summary"]
-        if len(var) != 1 or len(std) != 1 or len(gs) != 1 or not up(gs[0]["init"]).endswith(".get_summary()?"):
-            res.fail("info/%s/derivation" % file.split("/")[-1], fn, "summary must come from get_summary() and std from the variance")
+        if len(gs) != 1 or not up(gs[0]["init"]).endswith(".get_summary()?"):
+            res.fail("info/%s/derivation" % file.split("/")[-1], fn, "the summary printed must come from get_summary()")
             ok = False
             continue
-        v = re.sub(r"[\s()]", "", up(var[0]["init"]))
-        if v != "summary.sum_squares-summary.sum*summary.sum/summary.bases_coveredasf64/summary.bases_coveredasf64-1.0" or up(strip(std[0]["init"])) != "var.sqrt()":
-            res.fail("info/%s/variance" % file.split("/")[-1], var[0], "variance must be (sumSquares - sum*sum/n) / (n - 1) and std its square root; got `%s`" % up(var[0]["init"]))
+        pr = a if file == WI else b
+        lab = "std" if file == WI else "std of depth"
+        if lab not in pr:
+            res.fail("info/%s/std/missing" % file.split("/")[-1], fn, "`%s` is not printed" % lab)
+            ok = False
+            continue
+        v = pr[lab][1][0] if pr[lab][1] else ""
+        n_ = "summary.bases_coveredasf64"
+        forms = {"%s+%s*%s" % (x, y, z) for x in ("",) for y in ("",) for z in ("",)}
+        accepted = {"summary.sum_squares-summary.sum*summary.sum/%s/%s-1.0.sqrt" % (n_, n_), "summary.sum_squares-summary.sum*summary.sum/%s/-1.0+%s.sqrt" % (n_, n_)}
+        if v not in accepted:
+            res.fail("info/%s/variance" % file.split("/")[-1], pr[lab][2], "std must be sqrt((sumSquares - sum*sum/n) / (n - 1)); printed value is `%s` in normal form" % v)
             ok = False
         texts.append(v)
     # bigwiginfo --minmax, bigbedinfo itemCount
